@@ -205,7 +205,7 @@ def run(tier, out, replay=None):
     global MAXV
     MAXV = 11 if thorough else 10
     try:
-        scens = [gen_scenario(rng) for _ in range(1500 if thorough else 450)]
+        scens = [gen_scenario(rng) for _ in range(3000 if thorough else 450)]
         if replay:
             scens = [scens[json.load(open(replay))["record"]["scenario_index"]]]
         recs, owners = [], []
